@@ -33,11 +33,6 @@ def showErr : Option Err → String
 
 def showObs (o : Obs) : String := s!"m={showMarkups o.markups} e={showErr o.error} s={show01 o.stopped}"
 
-/-- cut `body` at the (absolute, ascending) positions -/
-def cutAt (body : Bytes) (off : Nat) : List Nat → List Bytes
-  | [] => [body]
-  | p :: ps => body.take (p - off) :: cutAt (body.drop (p - off)) (max p off) ps
-
 def posList (s : String) : List Nat :=
   if s == "-" then [] else (s.splitOn ".").filterMap (·.toNat?)
 
@@ -70,7 +65,7 @@ def handle : List String → Option String
     | .error e => some s!"init-error {e.name}"
     | .ok s0 =>
       let bd := unhexBytes body
-      let res := (sets.splitOn ";").map fun cs => showObs (feed s0 (cutAt bd 0 (posList cs))).obs
+      let res := (sets.splitOn ";").map fun cs => showObs (feed s0 (Spec.cutAt bd 0 (posList cs))).obs
       some ("|".intercalate (compress none res))
   | ["ref", b, body] =>
     match Spec.run (unhexBytes b) (unhexBytes body) with
